@@ -927,6 +927,27 @@ func ruleC01Membership(c *Ctx) {
 		}
 		return "NOT IN unwraps a subquery row (a Map) to its only column, IN does not"
 	}())
+	// an empty list is a list: no failure exit of either arm is taken because the list (a slice-typed value: the asserted
+	// right side) is nil or has no element -- `x IN (subquery with no rows)` is false and NOT IN true, not an error
+	if ei := errIdx(f); ei >= 0 {
+		for _, v := range []int64{inV, notInV} {
+			sel, bad := selOp(v), ""
+			for _, p := range tb.Paths {
+				if p.Exit != "return" || !sel(p) || ei >= len(p.Ret) || p.Ret[ei].Nil {
+					continue
+				}
+				if p.Ret[ei].T != nil && p.Ret[ei].T.Op == "ext" {
+					continue
+				}
+				for k, val := range p.Asg {
+					if t := p.KeyTerm[k]; t != nil && val.Kind() == constant.Bool && assumesEmptySlice(t, constant.BoolVal(val)) {
+						bad = "a failure exit is taken when " + t.String() + " is " + val.String() + ": an empty list (a subquery without rows) is refused instead of matching nothing"
+					}
+				}
+			}
+			c.Check(bad == "", "c01.in-siblings", key+"/"+consts[v]+"/empty-list", c.P.Pos(f.Pos()), "no failure exit depends on the list being nil or empty", bad)
+		}
+	}
 	c.Check(results[inV].ok, "c01.in-siblings", key+"/InOp", c.P.Pos(f.Pos()), "found=>true, exhausted=>false, oracle compare.Compare(left, element)==0", results[inV].why)
 	c.Check(results[notInV].ok, "c01.in-siblings", key+"/NotInOp", c.P.Pos(f.Pos()), "found=>false, exhausted=>true, same oracle as IN", results[notInV].why)
 }
@@ -1394,4 +1415,43 @@ func ruleC01Connectives(c *Ctx) {
 	if len(consts) < 6 {
 		c.Unknown("c01.connectives", "IsExprOperator", "-", fmt.Sprintf("only %d IS operators found in sqlparser", len(consts)))
 	}
+}
+
+// assumesEmptySlice: the condition t, assumed to be val, says that a slice-typed value is nil or has no element.
+func assumesEmptySlice(t *Term, val bool) bool {
+	isSlice := func(x *Term) bool {
+		if x == nil || x.Typ == nil {
+			return false
+		}
+		_, ok := x.Typ.Underlying().(*types.Slice)
+		return ok
+	}
+	if x, ok := isNilTest(t); ok {
+		return val && isSlice(x)
+	}
+	if t.Op == "bin" && len(t.Args) == 2 {
+		if t.Name == "!=" {
+			if a, b := t.Args[0], t.Args[1]; (b.Op == "const" && b.Name == "nil" && isSlice(a)) || (a.Op == "const" && a.Name == "nil" && isSlice(b)) {
+				return !val
+			}
+		}
+		l, r, op := t.Args[0], t.Args[1], t.Name
+		lenOf := func(x *Term) bool {
+			return x.Op == "builtin" && x.Name == "len" && len(x.Args) == 1 && isSlice(x.Args[0])
+		}
+		if lenOf(r) && l.Op == "const" {
+			l, r = r, l
+			op = map[string]string{"<": ">", ">": "<", "<=": ">=", ">=": "<=", "==": "==", "!=": "!="}[op]
+		}
+		if !lenOf(l) || r.Op != "const" {
+			return false
+		}
+		switch op + " " + r.Name {
+		case "== 0", "< 1", "<= 0":
+			return val
+		case "!= 0", "> 0", ">= 1":
+			return !val
+		}
+	}
+	return false
 }
